@@ -29,8 +29,37 @@ static bool deep_1d_class(Src &s, Ctx &ctx) {
     return true;
 }
 
+// Class "adaptive-gaps" (one case in sixteen, chosen from the last byte): the standard adaptive loop on a 2-3 dimensional local polynomial grid (single-parent rules) with a
+// strongly anisotropic model, 3-6 rounds of classic / direction-selective surplus refinement with a tolerance that flags only part of the points: the usual way hierarchies with
+// gaps arise. After every load the nodal reproduction is asserted whenever the coordinate model says the ancestor walk is closed (dag_closed).
+static bool adaptive_gaps_class(Src &s, Ctx &ctx) {
+    if (!(s.n >= 4 && (s.p[s.n - 1] % 16) == 9)) return false;
+    GridState st; st.ctx = &ctx; st.cap = cfg().tier ? 500 : 350;
+    GridSpec &sp = st.spec; sp.family = F_LOCALP; sp.dims = 2 + s.pick(2); sp.outs = 1 + s.pick(2); sp.rule = s.pick(3) == 2 ? rule_localp0 : rule_localp; sp.order = 1 + s.pick(3); sp.depth = 1 + s.pick(2);
+    st.vm.decode(s);
+    static const double strong[] = {2.0, 1.3, 0.9}, weak[] = {0.15, 0.3, 0.0};
+    int major = s.pick(sp.dims); for (int j = 0; j < 4; j++) st.vm.w[j] = (j == major) ? strong[s.pick(3)] : weak[s.pick(3)];   // (the model uses w[(j + k) % 4] for direction j of output k)
+    make_grid(st.g, sp, st.cap); ctx.log(sp.text() + " (class adaptive-gaps)"); ctx.log(st.vm.text());
+    Op ld; ld.kind = OP_LOAD; apply_op(st, ld);
+    int rounds = 3 + s.pick(4); long asserted = 0; int with_gaps = 0, skipped = 0;
+    static const double tols[] = {1e-2, 3e-3, 1e-3, 3e-2, 1e-4};
+    Op rf; rf.kind = OP_REF_SURP; rf.tol = tols[s.pick(5)]; rf.crit = s.pick(3) == 0 ? refine_direction_selective : refine_classic; rf.output = s.pick(2) ? -1 : 0; rf.variant = 1;
+    for (int r = 0; r < rounds && st.g.getNumLoaded() < st.cap; r++) {
+        if (!apply_op(st, rf) || st.g.getNumNeeded() == 0) break;
+        if (!apply_op(st, ld)) break;
+        bool strict = parent_complete(st), closed = strict || dag_closed(st);
+        if (!strict && closed) with_gaps++; if (!closed) skipped++;
+        long n = check_nodal(ctx, "C01.nodal", st, 1e-9, closed); asserted += n;
+    }
+    ctx.count("nodal-values", asserted); ctx.label("fam:localp"); ctx.label("class:adaptive-gaps"); ctx.label("hist:refined");
+    if (with_gaps) ctx.label("lp:gaps-asserted"); if (skipped) ctx.label("lp:incomplete-skipped");
+    ctx.nontrivial = with_gaps > 0;
+    return true;
+}
+
 void check_C01(Src &s, Ctx &ctx) {
     if (deep_1d_class(s, ctx)) return;
+    if (adaptive_gaps_class(s, ctx)) return;
     SpecOpts so; so.nonnested = false; so.custom = false; so.min_outs = 1; so.max_outs = 3; so.cap = cfg().tier ? 500 : 350;
     GridState st; st.cap = so.cap; st.ctx = &ctx;
     st.spec = decode_spec(s, so); st.vm.decode(s);
@@ -40,11 +69,13 @@ void check_C01(Src &s, Ctx &ctx) {
                                            OP_BEGIN_CONSTR, OP_BEGIN_CONSTR, OP_BEGIN_CONSTR, OP_CANDIDATES, OP_LOAD_CONSTR, OP_LOAD_CONSTR, OP_LOAD_CONSTR, OP_FINISH_CONSTR};
     int nops = 1 + s.pick(10);
     bool lp = st.spec.family == F_LOCALP;
-    long asserted = 0, skipped_incomplete = 0; int checks_after_refine = 0;
+    long asserted = 0, skipped_incomplete = 0, gaps_asserted = 0; int checks_after_refine = 0;
     run_history(s, st, kinds, nops, !s.chance(1, 6), [&](const Op &op) {
         if (!(op.kind == OP_LOAD || op.kind == OP_RELOAD || op.kind == OP_LOAD_CONSTR || op.kind == OP_FINISH_CONSTR || op.kind == OP_MERGE)) return;
         if (!st.dict_valid || st.g.getNumLoaded() == 0) return;
-        bool complete = !lp || parent_complete(st);
+        bool strict = !lp || parent_complete(st);
+        bool complete = strict || dag_closed(st);   // gaps are fine as long as the ancestor walk of the library reaches every ancestor (see history.hpp)
+        if (lp && !strict && complete) gaps_asserted++;
         if (!complete) { skipped_incomplete++; ctx.log("  (loaded set not parent-complete: equality not asserted)"); }
         double tau = (st.spec.family == F_WAVE) ? 1e-8 : 1e-9;
         long n = check_nodal(ctx, "C01.nodal", st, tau, complete);
@@ -53,7 +84,7 @@ void check_C01(Src &s, Ctx &ctx) {
     });
     ctx.label(std::string("fam:") + fam_name(st.spec.family));
     if (lp) { ctx.label("lp:" + rule_name(st.spec.rule) + "/o" + std::to_string(st.spec.order)); ctx.label(st.spec.dims >= 3 ? "lp:d>=3" : "lp:d<=2");
-        if (skipped_incomplete) ctx.label("lp:incomplete-skipped"); }
+        if (skipped_incomplete) ctx.label("lp:incomplete-skipped"); if (gaps_asserted) ctx.label("lp:gaps-asserted"); }
     if (st.spec.family == F_WAVE) ctx.label("wave:o" + std::to_string(st.spec.order));
     if (st.n_constr_loads > 0) ctx.label("hist:construction"); if (st.n_refine > 0) ctx.label("hist:refined");
     if (!st.spec.conformal.empty()) ctx.label("conformal"); if (!st.spec.ta.empty()) ctx.label("transform");
